@@ -1,0 +1,14 @@
+//go:build verif
+
+// Contracts checked by /verif/govc (comment-only; compiled only with -tags verif).
+package groth16
+
+//@ spec func wfVK(vk *VerifyingKey) bool = len(vk.G1.K) >= 1 + len(vk.PublicAndCommitmentCommitted) && (len(vk.CommitmentKeys) == 0 || len(vk.CommitmentKeys) == len(vk.PublicAndCommitmentCommitted)) && (forall i int, j int :: 0 <= i && i < len(vk.PublicAndCommitmentCommitted) && 0 <= j && j < len(vk.PublicAndCommitmentCommitted[i]) ==> 1 <= vk.PublicAndCommitmentCommitted[i][j] && vk.PublicAndCommitmentCommitted[i][j] <= len(vk.G1.K) - len(vk.PublicAndCommitmentCommitted) - 1 + i)
+
+//@ contract func Verify
+//@   props C08
+//@   requires proof != nil && vk != nil && wfVK(vk)
+//@   nopanic
+//@   loop 1 invariant maxNbPublicCommitted >= 0 && (forall k int :: 0 <= k && k <= rangeindex ==> len(vk.PublicAndCommitmentCommitted[k]) <= maxNbPublicCommitted)
+//@   loop 2 invariant len(publicWitness) == len(vk.G1.K) - len(vk.PublicAndCommitmentCommitted) - 1 + i
+//@   loop 3 invariant offset == curve.SizeOfG1AffineUncompressed + fr.Bytes*j
